@@ -9,13 +9,23 @@
 //! The 1-parameter spaces are observed a second time through the source-level channel the property names:
 //! every overload returns a distinct struct type `R<i>` and the call is wrapped in `assert_type<R<i>>(f(arg))`.
 //!
-//! Oracles are relational, there is no rank table in this file:
-//!   1. order independence: the verdict is the same for every permutation of the declarations;
+//! Oracles:
+//!   1. order independence: the verdict is the same for every layout of the declarations (every permutation, and
+//!      in the form spaces one differently named declaration at every position of the order);
 //!   2. exact match: the unique candidate whose parameter types equal the argument types is selected;
-//!   3. non-domination: "converts better" is defined by the compiler's own 1-parameter behaviour
-//!      (single candidate → viability, pair of candidates → preference); the candidate selected for a
-//!      multi-parameter / multi-candidate call must not be dominated by another viable candidate.
+//!   2b. documented priority (one `in` parameter, plain free functions): "converts better" for ONE argument is the
+//!      "Overload priority" table documented at the top of typer/src/casting.rs (transcribed in `doc_tier`), ties
+//!      broken by the VectorRank documented on the enum (same dimension, scalar expanded, vector truncated); the
+//!      verdict of every one-parameter set must be the one this reference gives (viability itself is measured,
+//!      not modelled). This ties the measured relation used by oracle 3 to the documented one;
+//!   3. non-domination: "converts better" is the compiler's own 1-parameter behaviour
+//!      (single candidate → viability, pair of candidates → preference; checked against the documented table by
+//!      2b); the candidate selected for a multi-parameter / multi-candidate call must not be dominated by another
+//!      viable candidate.
 //! Sanity axioms on the measured 1-parameter relation are checked before it is used.
+//!
+//! Declaration forms: free functions (all spaces), methods of a struct called as `s.f(x)`, methods called
+//! unqualified from a sibling method (`Form`); the IR shows the resolved callee in all three.
 //!
 //! Scheduling only (never verdicts): accepted call sites are batched many per compilation unit (one test
 //! function per site, one privately named overload set `f<i>` per declaration order) and bisected when the
@@ -168,11 +178,76 @@ fn subsets(n: usize, k: usize) -> Vec<Vec<usize>> {
 // ---------------------------------------------------------------------------------------------
 // program generation
 
-/// Declarations of the overload set `f<fi>` in the order `perm`.
+/// How the overload set is declared and called.
+///   * `Free`: free functions `f<i>(..)`, called from a free test function;
+///   * `Method`: methods of a struct `S<i>`, called as `s.f<i>(..)` from a free test function;
+///   * `MethodInternal`: methods of a struct `S<i>`, called unqualified from a sibling method of the same struct
+///     (the sibling is the differently named member of the layout: it is declared before, between or after the
+///     overloads it calls).
+#[derive(Copy, Clone, PartialEq, Eq, Debug, Hash)]
+enum Form {
+    Free,
+    Method,
+    MethodInternal,
+}
+
+impl Form {
+    fn tag(self) -> &'static str {
+        match self {
+            Form::Free => "free",
+            Form::Method => "method",
+            Form::MethodInternal => "method-internal",
+        }
+    }
+    fn parse(s: &str) -> Option<Form> {
+        [Form::Free, Form::Method, Form::MethodInternal].into_iter().find(|f| f.tag() == s)
+    }
+    fn rank(self) -> usize {
+        self as usize
+    }
+}
+
+/// A layout is a declaration order: candidate indices, optionally with one `GAP` = a declaration with another
+/// name (`void g<i>() {}`) at that position.
+const GAP: u8 = 255;
+
+/// all declaration layouts of `n` candidates: every permutation (identity first), and with `gaps` every position
+/// 0..=n of one differently named declaration
+fn layouts_of(n: usize, gaps: bool) -> Vec<Vec<u8>> {
+    let mut out = Vec::new();
+    for perm in perms_of(n) {
+        if !gaps {
+            out.push(perm);
+        } else {
+            for pos in 0..=n {
+                let mut l = perm.clone();
+                l.insert(pos, GAP);
+                out.push(l);
+            }
+        }
+    }
+    out
+}
+
+fn layout_show(set: &[Sig], layout: &[u8]) -> String {
+    layout.iter().map(|c| if *c == GAP { "<other>".to_string() } else { sig_show(&set[*c as usize]) }).collect::<Vec<_>>().join("; ")
+}
+
+/// Declarations of the overload set `f<fi>` in the order `layout` (the members of `S<fi>` for the method forms).
 /// `witness`: every candidate returns its own struct type `R<canonical index>`.
-fn emit_decls(s: &mut String, fi: usize, set: &[Sig], perm: &[u8], witness: bool) {
+/// `gap`: the text of the differently named declaration(s) at the `GAP` position (default `void g<fi>() {}`).
+fn emit_decls(s: &mut String, fi: usize, set: &[Sig], layout: &[u8], witness: bool, gap: Option<&str>) {
     use std::fmt::Write;
-    for &ci in perm {
+    for &ci in layout {
+        if ci == GAP {
+            match gap {
+                Some(text) => s.push_str(text),
+                None => {
+                    let _ = writeln!(s, "void g{}() {{}}", fi);
+                }
+            }
+            continue;
+        }
         let cand = &set[ci as usize];
         if witness {
             let _ = write!(s, "R{} f{}(", ci, fi);
@@ -193,11 +268,14 @@ fn emit_decls(s: &mut String, fi: usize, set: &[Sig], perm: &[u8], witness: bool
     }
 }
 
-/// The test function `t<k>` whose last statement is the call `f<fi>(args)`;
+/// The test function `t<k>` whose last statement is the call `f<fi>(args)` (`s.f<fi>(args)` for `Form::Method`);
 /// `witness = Some(r)`: the call is wrapped in `assert_type<R<r>>( .. )`.
-fn emit_test(s: &mut String, helpers: &mut u32, k: usize, fi: usize, args: &[A], witness: Option<u8>) {
+fn emit_test(s: &mut String, helpers: &mut u32, form: Form, k: usize, fi: usize, args: &[A], witness: Option<u8>) {
     use std::fmt::Write;
     let _ = write!(s, "void t{}() {{ ", k);
+    if form == Form::Method {
+        let _ = write!(s, "S{} s; ", fi);
+    }
     for (i, a) in args.iter().enumerate() {
         if a_lvalue(*a) {
             let _ = write!(s, "{} a{}; ", ty_name(*a), i);
@@ -205,6 +283,9 @@ fn emit_test(s: &mut String, helpers: &mut u32, k: usize, fi: usize, args: &[A],
     }
     if let Some(r) = witness {
         let _ = write!(s, "assert_type<R{}>(", r);
+    }
+    if form == Form::Method {
+        s.push_str("s.");
     }
     let _ = write!(s, "f{}(", fi);
     for (i, a) in args.iter().enumerate() {
@@ -244,13 +325,58 @@ fn unit_prefix(helpers: u32, witness_structs: usize) -> String {
     s
 }
 
-/// the stand-alone program of one site (used in findings and replays)
-fn program_text(set: &[Sig], perm: &[u8], args: &[A], witness: Option<u8>) -> String {
-    let mut body = String::new();
+/// One compilation unit for `sites` = (layout index, tuple index): per layout (in order of first use) the privately
+/// named overload set followed by the test functions of its sites (inside the struct for `Form::MethodInternal`).
+/// `witness[k]` = the candidate whose return type site k asserts.
+fn build_unit(form: Form, set: &[Sig], layouts: &[Vec<u8>], tuples: &[Vec<A>], sites: &[(usize, usize)], witness: Option<&[u8]>) -> String {
     let mut helpers = 0u32;
-    emit_decls(&mut body, 0, set, perm, witness.is_some());
-    emit_test(&mut body, &mut helpers, 0, 0, args, witness);
+    let mut order: Vec<usize> = Vec::new();
+    let mut tests: Vec<String> = Vec::new();
+    for (k, (pi, ti)) in sites.iter().enumerate() {
+        let slot = match order.iter().position(|p| p == pi) {
+            Some(s) => s,
+            None => {
+                order.push(*pi);
+                tests.push(String::new());
+                order.len() - 1
+            }
+        };
+        emit_test(&mut tests[slot], &mut helpers, form, k, *pi, &tuples[*ti], witness.map(|w| w[k]));
+    }
+    let mut body = String::new();
+    for (slot, pi) in order.iter().enumerate() {
+        match form {
+            Form::Free => {
+                emit_decls(&mut body, *pi, set, &layouts[*pi], witness.is_some(), None);
+                body.push_str(&tests[slot]);
+            }
+            Form::Method => {
+                body.push_str(&format!("struct S{} {{\n", pi));
+                emit_decls(&mut body, *pi, set, &layouts[*pi], witness.is_some(), None);
+                body.push_str("};\n");
+                body.push_str(&tests[slot]);
+            }
+            Form::MethodInternal => {
+                // the calling methods are the differently named members: they sit at the GAP position of the layout
+                // (before, between or after the overloads they call); without a GAP they follow the overloads
+                body.push_str(&format!("struct S{} {{\n", pi));
+                if layouts[*pi].contains(&GAP) {
+                    emit_decls(&mut body, *pi, set, &layouts[*pi], witness.is_some(), Some(&tests[slot]));
+                } else {
+                    emit_decls(&mut body, *pi, set, &layouts[*pi], witness.is_some(), None);
+                    body.push_str(&tests[slot]);
+                }
+                body.push_str("};\n");
+            }
+        }
+    }
     format!("{}{}", unit_prefix(helpers, if witness.is_some() { set.len() } else { 0 }), body)
+}
+
+/// the stand-alone program of one site (used in findings and replays)
+fn program_text(form: Form, set: &[Sig], layout: &[u8], args: &[A], witness: Option<u8>) -> String {
+    let w = witness.map(|c| vec![c]);
+    build_unit(form, set, &[layout.to_vec()], &[args.to_vec()], &[(0, 0)], w.as_deref())
 }
 
 // ---------------------------------------------------------------------------------------------
@@ -326,14 +452,23 @@ fn decode_param(m: &ir::Module, pt: &ir::ParamType) -> Option<P> {
 
 /// For every test function `t<k>` (k < n): the parameter types of the function its call statement resolved to,
 /// read from the IR. `Err(text)` if the IR does not have the expected shape.
-fn read_unit(m: &ir::Module, callee_of: &[usize]) -> Vec<Result<Sig, String>> {
+fn read_unit(m: &ir::Module, form: Form, callee_of: &[usize]) -> Vec<Result<Sig, String>> {
     let n = callee_of.len();
     let mut out: Vec<Result<Sig, String>> = (0..n).map(|_| Err("test function not found in the IR".to_string())).collect();
+    let mut ids: Vec<ir::FunctionId> = Vec::new();
     for def in &m.root_definitions {
-        let id = match def {
-            ir::RootDefinition::Function(id) => *id,
-            _ => continue,
-        };
+        match def {
+            ir::RootDefinition::Function(id) if form != Form::MethodInternal => ids.push(*id),
+            ir::RootDefinition::Struct(sid) if form == Form::MethodInternal => ids.extend(m.struct_registry[sid.0 as usize].methods.iter().copied()),
+            _ => {}
+        }
+    }
+    let want = match form {
+        Form::Free => ir::CallType::FreeFunction,
+        Form::Method => ir::CallType::MethodExternal,
+        Form::MethodInternal => ir::CallType::MethodInternal,
+    };
+    for id in ids {
         let name = m.function_registry.get_function_name(id);
         let k: usize = match name.strip_prefix('t').and_then(|r| r.parse().ok()) {
             Some(k) if k < n => k,
@@ -348,7 +483,7 @@ fn read_unit(m: &ir::Module, callee_of: &[usize]) -> Vec<Result<Sig, String>> {
             None => continue,
         };
         out[k] = match &last.kind {
-            ir::StatementKind::Expression(ir::Expression::Call(callee, ir::CallType::FreeFunction, _)) => {
+            ir::StatementKind::Expression(ir::Expression::Call(callee, ct, _)) if *ct == want => {
                 let cname = m.function_registry.get_function_name(*callee);
                 if cname != format!("f{}", callee_of[k]) {
                     Err(format!("call resolved to a function named {}", cname))
@@ -358,7 +493,7 @@ fn read_unit(m: &ir::Module, callee_of: &[usize]) -> Vec<Result<Sig, String>> {
                     ps.ok_or_else(|| "callee has a parameter type outside the enumerated alphabet".to_string())
                 }
             }
-            other => Err(format!("statement is not a free-function call: {:?}", other)),
+            other => Err(format!("statement is not a {} call: {:?}", form.tag(), other)),
         };
     }
     out
@@ -424,7 +559,7 @@ impl Base {
         let mut e = slot.load(Ordering::Relaxed);
         if e == E_UNKNOWN && self.lazy {
             let set = vec![vec![t]];
-            e = match observe_alone(&set, &[0], &[a], None) {
+            e = match observe_alone(Form::Free, &set, &[0], &[a], None) {
                 Ok(V::Sel(_)) => 1,
                 Ok(V::NoMatch) => 0,
                 _ => E_BAD,
@@ -442,7 +577,7 @@ impl Base {
         let mut e = slot.load(Ordering::Relaxed);
         if e == E_UNKNOWN && self.lazy {
             let set = vec![vec![lo], vec![hi]];
-            e = match observe_alone(&set, &[0, 1], &[a], None) {
+            e = match observe_alone(Form::Free, &set, &[0, 1], &[a], None) {
                 Ok(V::Sel(0)) => E_FIRST,
                 Ok(V::Sel(_)) => E_SECOND,
                 Ok(V::Amb) => E_AMB,
@@ -541,22 +676,48 @@ struct Env<'a> {
     use_pref: bool,
     /// development aid (C16_PROBE=cpu): CPU time spent in type_check, never part of a verdict
     probe_cpu: bool,
+    /// how the overload set is declared and called
+    form: Form,
+    /// the declaration layouts also place one differently named declaration at every position
+    gaps: bool,
+    /// compare the verdicts of one-parameter sets with the documented priority table (needs complete viability)
+    doc: bool,
+}
+
+impl<'a> Env<'a> {
+    /// the same environment for another declaration form; the documented-priority oracle is about the ranking, not
+    /// about the form, and stays with the plain free-function spaces (one finding per root cause)
+    fn with(&self, form: Form, gaps: bool, witness: bool) -> Env<'a> {
+        Env { base: self.base, witness, space: self.space, batch: self.batch, crosscheck: self.crosscheck, use_pref: self.use_pref, probe_cpu: self.probe_cpu, form, gaps, doc: false }
+    }
+    /// suffix of the signatures of this form ("" for plain free functions, so that those stay as they were)
+    fn sig_tag(&self) -> String {
+        match (self.form, self.gaps) {
+            (Form::Free, false) => String::new(),
+            (Form::Free, true) => "|free-interleaved".to_string(),
+            (f, _) => format!("|{}", f.tag()),
+        }
+    }
 }
 
 fn case_replay(set: &[Sig], args: &[A]) -> String {
+    case_replay_in(Form::Free, false, set, args)
+}
+
+fn case_replay_in(form: Form, gaps: bool, set: &[Sig], args: &[A]) -> String {
     let cands: Vec<String> = set.iter().map(|s| s.iter().map(|p| p_show(*p)).collect::<Vec<_>>().join(",")).collect();
-    format!("kind: case\ncands: {}\nargs: {}\n", cands.join(" | "), args_show(args))
+    format!("kind: case\nform: {}\ngaps: {}\ncands: {}\nargs: {}\n", form.tag(), gaps as u8, cands.join(" | "), args_show(args))
 }
 
 /// compile one site alone (no accumulator: used by the lazy base and by replays)
-fn observe_alone(set: &[Sig], perm: &[u8], args: &[A], witness: Option<u8>) -> Result<V, String> {
-    let src = program_text(set, perm, args, witness);
+fn observe_alone(form: Form, set: &[Sig], perm: &[u8], args: &[A], witness: Option<u8>) -> Result<V, String> {
+    let src = program_text(form, set, perm, args, witness);
     match type_check_unit(&src) {
         Err(p) => Err(p.signature()),
         Ok(Err(UnitErr::Ambiguous)) => Ok(V::Amb),
         Ok(Err(UnitErr::NoMatch)) => Ok(V::NoMatch),
         Ok(Err(UnitErr::Other(name, text))) => Err(format!("{}: {}", name, text)),
-        Ok(Ok(m)) => match read_unit(&m, &[0]).pop().unwrap() {
+        Ok(Ok(m)) => match read_unit(&m, form, &[0]).pop().unwrap() {
             Ok(sig) => match set.iter().position(|s| *s == sig) {
                 Some(c) => Ok(V::Sel(c as u8)),
                 None => Err(format!("resolved to {} which is not a declared candidate", sig_show(&sig))),
@@ -578,17 +739,7 @@ impl<'a> Resolver<'a> {
         if sites.is_empty() {
             return;
         }
-        let mut body = String::new();
-        let mut helpers = 0u32;
-        let mut declared = vec![false; self.perms.len()];
-        for (k, (pi, ti)) in sites.iter().enumerate() {
-            if !declared[*pi] {
-                declared[*pi] = true;
-                emit_decls(&mut body, *pi, self.set, &self.perms[*pi], false);
-            }
-            emit_test(&mut body, &mut helpers, k, *pi, &self.tuples[*ti], None);
-        }
-        let src = format!("{}{}", unit_prefix(helpers, 0), body);
+        let src = build_unit(env.form, self.set, self.perms, self.tuples, sites, None);
         acc.count("type_checks");
         let t0 = if env.probe_cpu { thread_cpu_s() } else { 0.0 };
         let r = type_check_unit(&src);
@@ -602,7 +753,7 @@ impl<'a> Resolver<'a> {
             Ok(Ok(m)) => {
                 acc.count(if sites.len() == 1 { "single_site_units_accepted" } else { "units_accepted" });
                 let callee_of: Vec<usize> = sites.iter().map(|(pi, _)| *pi).collect();
-                let calls = read_unit(&m, &callee_of);
+                let calls = read_unit(&m, env.form, &callee_of);
                 for ((pi, ti), call) in sites.iter().zip(calls) {
                     let slot = pi * self.tuples.len() + ti;
                     out[slot] = match call {
@@ -647,12 +798,12 @@ impl<'a> Resolver<'a> {
         }
     }
 
-    fn bad(&self, _env: &Env, pi: usize, ti: usize, sig: &str, text: String, acc: &mut Acc) {
+    fn bad(&self, env: &Env, pi: usize, ti: usize, sig: &str, text: String, acc: &mut Acc) {
         let args = &self.tuples[ti];
         acc.violation(Violation {
-            signature: sig.to_string(),
-            detail: format!("{} — program:\n{}", text, program_text(self.set, &self.perms[pi], args, None)),
-            replay: case_replay(self.set, args),
+            signature: format!("{}{}", sig, env.sig_tag()),
+            detail: format!("{} — program:\n{}", text, program_text(env.form, self.set, &self.perms[pi], args, None)),
+            replay: case_replay_in(env.form, env.gaps, self.set, args),
         });
     }
 
@@ -661,21 +812,14 @@ impl<'a> Resolver<'a> {
         if sites.is_empty() {
             return;
         }
-        let mut body = String::new();
-        let mut helpers = 0u32;
-        let mut declared = vec![false; self.perms.len()];
-        for (k, (pi, ti)) in sites.iter().enumerate() {
-            let c = match verdicts[pi * self.tuples.len() + ti] {
+        let selected: Vec<u8> = sites
+            .iter()
+            .map(|(pi, ti)| match verdicts[pi * self.tuples.len() + ti] {
                 V::Sel(c) => c,
                 _ => unreachable!(),
-            };
-            if !declared[*pi] {
-                declared[*pi] = true;
-                emit_decls(&mut body, *pi, self.set, &self.perms[*pi], true);
-            }
-            emit_test(&mut body, &mut helpers, k, *pi, &self.tuples[*ti], Some(c));
-        }
-        let src = format!("{}{}", unit_prefix(helpers, self.set.len()), body);
+            })
+            .collect();
+        let src = build_unit(env.form, self.set, self.perms, self.tuples, sites, Some(&selected));
         acc.count("type_checks");
         match type_check_unit(&src) {
             Ok(Ok(_)) => acc.add("witness_assert_type_agrees", sites.len() as u64),
@@ -698,19 +842,126 @@ impl<'a> Resolver<'a> {
                     Ok(Ok(_)) => unreachable!(),
                 };
                 acc.violation(Violation {
-                    signature: "overload|witness-disagrees".to_string(),
+                    signature: format!("overload|witness-disagrees{}", env.sig_tag()),
                     detail: format!(
                         "the IR says the call resolves to {} but the same program with assert_type<R{}> is rejected ({}):\n{}",
                         sig_show(&self.set[c as usize]),
                         c,
                         what,
-                        program_text(self.set, &self.perms[pi], args, Some(c))
+                        program_text(env.form, self.set, &self.perms[pi], args, Some(c))
                     ),
-                    replay: case_replay(self.set, args),
+                    replay: case_replay_in(env.form, env.gaps, self.set, args),
                 });
             }
         }
     }
+}
+
+// ---------------------------------------------------------------------------------------------
+// the documented priority of one conversion (reference model for "converts better")
+
+/// Source kind of an argument for the documented table: 0..6 = bool,int,uint,half,float,double, 6 = untyped int
+/// literal; the untyped float literal has no row in the documented table.
+fn doc_src(a: A) -> Option<(usize, u8)> {
+    match a {
+        A_LIT_INT => Some((6, 1)),
+        A_LIT_FLOAT => None,
+        a => {
+            let t = a_ty(a).unwrap();
+            Some(((t / 4) as usize, DIMS[(t % 4) as usize]))
+        }
+    }
+}
+
+fn doc_src_show(a: A) -> String {
+    match doc_src(a) {
+        Some((6, _)) => "int-literal".to_string(),
+        Some((s, _)) => SC[s].to_string(),
+        None => "float-literal".to_string(),
+    }
+}
+
+/// The "Overload priority" table at the top of typer/src/casting.rs, transcribed row by row: the position of the
+/// group that contains `dst` in the row of `src` (0 = first choice).
+///   bool                 bool     -> uint/int/half/float/double
+///   int                  int      -> uint                  -> bool -> half/float/double
+///   untyped int literal:             uint/int              -> bool -> half/float/double
+///   uint                 uint     -> int                   -> bool -> half/float/double
+///   half:                half     -> float    -> double            -> bool/int/uint
+///   float:               float    -> double                        -> bool/int/uint/half
+///   double:              double                                    -> bool/int/uint/float/half
+fn doc_tier(src: usize, dst: usize) -> u8 {
+    const B: usize = 0;
+    const I: usize = 1;
+    const U: usize = 2;
+    const H: usize = 3;
+    const F: usize = 4;
+    const D: usize = 5;
+    let rows: [&[&[usize]]; 7] = [
+        &[&[B], &[U, I, H, F, D]],
+        &[&[I], &[U], &[B], &[H, F, D]],
+        &[&[U], &[I], &[B], &[H, F, D]],
+        &[&[H], &[F], &[D], &[B, I, U]],
+        &[&[F], &[D], &[B, I, U, H]],
+        &[&[D], &[B, I, U, F, H]],
+        &[&[U, I], &[B], &[H, F, D]],
+    ];
+    rows[src].iter().position(|g| g.contains(&dst)).unwrap() as u8
+}
+
+/// The VectorRank documented on the enum in casting.rs: 0 same dimension, 1 scalar expanded to a vector,
+/// 2 later elements culled; None: no such conversion.
+fn doc_vector_rank(from: u8, to: u8) -> Option<u8> {
+    if from == to {
+        Some(0)
+    } else if from == 1 {
+        Some(1)
+    } else if to < from {
+        Some(2)
+    } else {
+        None
+    }
+}
+
+/// documented quality of converting argument `a` to the `in` parameter `p`: (numeric priority, vector rank), smaller is better
+fn doc_key(a: A, p: P) -> Option<(u8, u8)> {
+    if p_out(p) {
+        return None;
+    }
+    let (src, from) = doc_src(a)?;
+    let t = p_ty(p);
+    let v = doc_vector_rank(from, DIMS[(t % 4) as usize])?;
+    Some((doc_tier(src, (t / 4) as usize), v))
+}
+
+/// The verdict of a one-parameter call by the documented priority: among the candidates that are viable (measured on
+/// single candidates, not modelled) the one with the best numeric priority, ties broken by the vector rank, is
+/// selected; several equally good ones are ambiguous. None: outside the documented table.
+fn doc_model(base: &Base, set: &[Sig], a: A) -> Option<V> {
+    let mut best: Option<(u8, u8)> = None;
+    let mut winners: Vec<u8> = Vec::new();
+    for (ci, c) in set.iter().enumerate() {
+        if c.len() != 1 || p_out(c[0]) {
+            return None;
+        }
+        if !base.viable(a, c[0])? {
+            continue;
+        }
+        let k = doc_key(a, c[0])?;
+        match best {
+            Some(b) if k > b => {}
+            Some(b) if k == b => winners.push(ci as u8),
+            _ => {
+                best = Some(k);
+                winners = vec![ci as u8];
+            }
+        }
+    }
+    Some(match winners.len() {
+        0 => V::NoMatch,
+        1 => V::Sel(winners[0]),
+        _ => V::Amb,
+    })
 }
 
 /// candidates whose parameter types equal the argument types exactly (and whose in/out fits the value category)
@@ -731,11 +982,12 @@ fn exact_candidates(set: &[Sig], args: &[A]) -> Vec<usize> {
 /// Explore one candidate set: every argument tuple × every declaration order; apply the oracles.
 /// Returns the verdicts of the identity permutation.
 fn process_set(env: &Env, set: &[Sig], tuples: &[Vec<A>], acc: &mut Acc) -> Vec<V> {
-    let perms = perms_of(set.len());
+    let perms = layouts_of(set.len(), env.gaps);
     let nt = tuples.len();
     let nparams = set[0].len();
+    let tag = env.sig_tag();
     // findings keep the example with the lowest index per signature: rank simpler sets first across all spaces
-    acc.cur_index = (((nparams * 8 + set.len()) as u64) << 40) | (acc.cur_index & ((1 << 40) - 1));
+    acc.cur_index = ((((env.form.rank() * 2 + env.gaps as usize) * 64 + nparams * 8 + set.len()) as u64) << 40) | (acc.cur_index & ((1 << 40) - 1));
     let rs = Resolver { set, perms: &perms, tuples };
     let mut verdicts = vec![V::Bad; perms.len() * nt];
 
@@ -776,11 +1028,11 @@ fn process_set(env: &Env, set: &[Sig], tuples: &[Vec<A>], acc: &mut Acc) -> Vec<
             if h % env.crosscheck == 0 {
                 acc.count("type_checks");
                 acc.count("batched_sites_rechecked_alone");
-                let alone = observe_alone(set, &perms[*pi], &tuples[*ti], None).unwrap_or(V::Bad);
+                let alone = observe_alone(env.form, set, &perms[*pi], &tuples[*ti], None).unwrap_or(V::Bad);
                 let got = verdicts[pi * nt + ti];
                 if alone != got && got != V::Bad {
                     acc.violation(Violation {
-                        signature: "overload|verdict-depends-on-unrelated-declarations".to_string(),
+                        signature: format!("overload|verdict-depends-on-unrelated-declarations{}", tag),
                         detail: format!(
                             "set {} args {}: compiled alone the call {}, in a unit with other unrelated overload sets it {}",
                             set_show(set),
@@ -788,7 +1040,7 @@ fn process_set(env: &Env, set: &[Sig], tuples: &[Vec<A>], acc: &mut Acc) -> Vec<
                             v_show(alone, set),
                             v_show(got, set)
                         ),
-                        replay: case_replay(set, &tuples[*ti]),
+                        replay: case_replay_in(env.form, env.gaps, set, &tuples[*ti]),
                     });
                 }
             }
@@ -811,9 +1063,9 @@ fn process_set(env: &Env, set: &[Sig], tuples: &[Vec<A>], acc: &mut Acc) -> Vec<
         for pi in 1..perms.len() {
             let v = verdicts[pi * nt + ti];
             if v != v0 && v != V::Bad && v0 != V::Bad {
-                let order = |p: &[u8]| p.iter().map(|c| sig_show(&set[*c as usize])).collect::<Vec<_>>().join("; ");
+                let order = |p: &[u8]| layout_show(set, p);
                 acc.violation(Violation {
-                    signature: format!("overload|order-dependent|{}-param", nparams),
+                    signature: format!("overload|order-dependent|{}-param{}", nparams, tag),
                     detail: format!(
                         "args ({}): declared as [{}] the call {}, declared as [{}] it {} — program (second order):\n{}",
                         args_show(args),
@@ -821,9 +1073,9 @@ fn process_set(env: &Env, set: &[Sig], tuples: &[Vec<A>], acc: &mut Acc) -> Vec<
                         v_show(v0, set),
                         order(&perms[pi]),
                         v_show(v, set),
-                        program_text(set, &perms[pi], args, None)
+                        program_text(env.form, set, &perms[pi], args, None)
                     ),
-                    replay: case_replay(set, args),
+                    replay: case_replay_in(env.form, env.gaps, set, args),
                 });
                 break;
             }
@@ -837,21 +1089,66 @@ fn process_set(env: &Env, set: &[Sig], tuples: &[Vec<A>], acc: &mut Acc) -> Vec<
                 let v = verdicts[pi * nt + ti];
                 if v != V::Sel(e) && v != V::Bad {
                     acc.violation(Violation {
-                        signature: "overload|exact-match-not-selected".to_string(),
+                        signature: format!("overload|exact-match-not-selected{}", tag),
                         detail: format!(
                             "args ({}): {} matches the argument types exactly but the call {} — program:\n{}",
                             args_show(args),
                             sig_show(&set[e as usize]),
                             v_show(v, set),
-                            program_text(set, &perms[pi], args, Some(e))
+                            program_text(env.form, set, &perms[pi], args, Some(e))
                         ),
-                        replay: case_replay(set, args),
+                        replay: case_replay_in(env.form, env.gaps, set, args),
                     });
                     break;
                 }
             }
         } else if exact.len() > 1 {
             acc.count("exact_match_excluded_in_out_twins");
+        }
+        // 2b. documented priority (one parameter): the verdict is the one the documented priority table gives
+        if env.doc && nparams == 1 {
+            match doc_model(env.base, set, args[0]) {
+                Some(expected) => {
+                    acc.count("documented_priority_cases");
+                    for pi in 0..perms.len() {
+                        let v = verdicts[pi * nt + ti];
+                        if v != expected && v != V::Bad && !(matches!(v, V::Sel(_)) && matches!(expected, V::Sel(_))) {
+                            // the property only forbids selecting a dominated candidate: a call the compiler rejects as
+                            // ambiguous / unmatched, or resolves where the table leaves two candidates incomparable, is a
+                            // ranking the property leaves free; counted, not a violation
+                            acc.count(match (v, expected) {
+                                (V::Amb, _) => "documented_priority_deviation|rejected-as-ambiguous(informational)",
+                                (V::NoMatch, _) => "documented_priority_deviation|rejected-as-unmatched(informational)",
+                                _ => "documented_priority_deviation|resolved-where-the-table-is-incomparable(informational)",
+                            });
+                            break;
+                        }
+                        if v != expected && v != V::Bad {
+                            // the selected candidate is dominated by the one the documented table ranks strictly better;
+                            // the class is (source scalar kind, documented outcome): the table cell that is not honoured
+                            let show = |v: V| match v {
+                                V::Sel(c) => format!("selects {}", SC[(p_ty(set[c as usize][0]) / 4) as usize]),
+                                V::Amb => "ambiguous".to_string(),
+                                V::NoMatch => "unmatched".to_string(),
+                                V::Bad => "bad".to_string(),
+                            };
+                            acc.violation(Violation {
+                                signature: format!("overload|documented-priority|{}|expected {}{}", doc_src_show(args[0]), show(expected), tag),
+                                detail: format!(
+                                    "args ({}): by the priority table documented in typer/src/casting.rs (numeric priority, then same dimension < scalar expanded < vector truncated) the call {}, but it {} — program:\n{}",
+                                    args_show(args),
+                                    v_show(expected, set),
+                                    v_show(v, set),
+                                    program_text(env.form, set, &perms[pi], args, None)
+                                ),
+                                replay: case_replay_in(env.form, env.gaps, set, args),
+                            });
+                            break;
+                        }
+                    }
+                }
+                None => acc.count("documented_priority_not_applicable"),
+            }
         }
         // 3. non-domination (for every distinct selected candidate over the permutations)
         let mut seen: Vec<u8> = Vec::new();
@@ -877,14 +1174,14 @@ fn process_set(env: &Env, set: &[Sig], tuples: &[Vec<A>], acc: &mut Acc) -> Vec<
             if set.len() > 1 || nparams > 1 {
                 if env.base.cand_viable(cs, args) == Some(false) {
                     acc.violation(Violation {
-                        signature: "overload|axiom|selected-not-viable-alone".to_string(),
+                        signature: format!("overload|axiom|selected-not-viable-alone{}", tag),
                         detail: format!(
                             "args ({}): set [{}] selects {} although some argument is rejected by a single candidate with that parameter type",
                             args_show(args),
                             set_show(set),
                             sig_show(cs)
                         ),
-                        replay: case_replay(set, args),
+                        replay: case_replay_in(env.form, env.gaps, set, args),
                     });
                 }
             }
@@ -899,15 +1196,15 @@ fn process_set(env: &Env, set: &[Sig], tuples: &[Vec<A>], acc: &mut Acc) -> Vec<
                 match env.base.dominates(d, cs, args) {
                     Some(true) => {
                         acc.violation(Violation {
-                            signature: "overload|dominated-selected".to_string(),
+                            signature: format!("overload|dominated-selected{}", tag),
                             detail: format!(
                                 "args ({}): the call selects {} although the viable candidate {} converts no argument worse and at least one better (by the compiler's own one-parameter choices) — program:\n{}",
                                 args_show(args),
                                 sig_show(cs),
                                 sig_show(d),
-                                program_text(set, &perms[pi], args, Some(c))
+                                program_text(env.form, set, &perms[pi], args, Some(c))
                             ),
-                            replay: case_replay(set, args),
+                            replay: case_replay_in(env.form, env.gaps, set, args),
                         });
                     }
                     Some(_) => acc.count("domination_comparisons"),
@@ -926,7 +1223,11 @@ fn process_set(env: &Env, set: &[Sig], tuples: &[Vec<A>], acc: &mut Acc) -> Vec<
             }
         }
         if let V::Sel(c) = v0 {
-            acc.outcome(&(args, &set[c as usize]));
+            if env.form == Form::Free && !env.gaps {
+                acc.outcome(&(args, &set[c as usize]));
+            } else {
+                acc.outcome(&(env.form, env.gaps, args, &set[c as usize]));
+            }
         }
         if env.witness {
             for pi in 0..perms.len() {
@@ -948,7 +1249,7 @@ fn process_set(env: &Env, set: &[Sig], tuples: &[Vec<A>], acc: &mut Acc) -> Vec<
                 _ => unreachable!(),
             };
             let wrong = (c + 1) % set.len() as u8;
-            let src = program_text(set, &perms[pi], &tuples[ti], Some(wrong));
+            let src = program_text(env.form, set, &perms[pi], &tuples[ti], Some(wrong));
             acc.count("type_checks");
             match type_check_unit(&src) {
                 Ok(Err(UnitErr::Other(name, _))) if name == "AssertTypeFailed" => acc.count("witness_wrong_type_rejected"),
@@ -959,9 +1260,9 @@ fn process_set(env: &Env, set: &[Sig], tuples: &[Vec<A>], acc: &mut Acc) -> Vec<
                         Err(p) => format!("panic {}", p.message),
                     };
                     acc.violation(Violation {
-                        signature: "overload|witness-vacuous".to_string(),
+                        signature: format!("overload|witness-vacuous{}", tag),
                         detail: format!("assert_type with the return type of a candidate that was not selected did not fail with AssertTypeFailed ({}):\n{}", what, src),
-                        replay: case_replay(set, &tuples[ti]),
+                        replay: case_replay_in(env.form, env.gaps, set, &tuples[ti]),
                     });
                 }
             }
@@ -1013,7 +1314,7 @@ fn absorb(ctx: &Ctx, rep: &mut Report, name: &str, r: ParResult) {
 
 pub fn run(ctx: &Ctx) -> i32 {
     let mut rep = Report::new("exploration");
-    rep.rule = "one evaluation = one call site (candidate set in one declaration order × one argument tuple) type-checked by the real rssl::typer::type_check; non-trivial = the call is accepted; distinct = different (argument tuple, selected candidate's parameter types)".into();
+    rep.rule = "one evaluation = one call site (candidate set in one declaration form and layout × one argument tuple) type-checked by the real rssl::typer::type_check; non-trivial = the call is accepted; distinct = different (declaration form, argument tuple, selected candidate's parameter types)".into();
     let base = Base::new(false);
     let probe_cpu = std::env::var("C16_PROBE").as_deref() == Ok("cpu");
 
@@ -1024,7 +1325,7 @@ pub fn run(ctx: &Ctx) -> i32 {
         for a in 0..NA as u8 {
             acc.evals += 1;
             acc.count("type_checks");
-            let v = observe_alone(&set, &[0], &[a], None);
+            let v = observe_alone(Form::Free, &set, &[0], &[a], None);
             let e = match v {
                 Ok(V::Sel(_)) => 1,
                 Ok(V::NoMatch) => 0,
@@ -1040,7 +1341,7 @@ pub fn run(ctx: &Ctx) -> i32 {
                     let sig = if text.starts_with("panic|") { text.clone() } else { format!("overload|unexpected-error|{}", text.split(':').next().unwrap_or("")) };
                     acc.violation(Violation {
                         signature: sig,
-                        detail: format!("{} — program:\n{}", text, program_text(&set, &[0], &[a], None)),
+                        detail: format!("{} — program:\n{}", text, program_text(Form::Free, &set, &[0], &[a], None)),
                         replay: case_replay(&set, &[a]),
                     });
                     E_BAD
@@ -1063,13 +1364,15 @@ pub fn run(ctx: &Ctx) -> i32 {
             base.viable[a as usize * NP + t as usize].store(e, Ordering::Relaxed);
         }
     });
+    // the documented-priority oracle takes viability from this table: it must be complete
+    let doc = r.completed;
     absorb(ctx, &mut rep, "p1_single_candidates", r);
 
     // ---- phase 1: pairs of one-parameter candidates (all 48 parameter types incl. out) × 50 arguments × 2 orders
     let pairs: Vec<(P, P)> = (0..NP as u8).flat_map(|x| ((x + 1)..NP as u8).map(move |y| (x, y))).collect();
     let args1 = all_args_1p();
-    let env1p = Env { base: &base, witness: true, space: "p1", batch: 128, crosscheck: 97, use_pref: false, probe_cpu };
-    let env1 = Env { base: &base, witness: true, space: "p1", batch: 128, crosscheck: 97, use_pref: true, probe_cpu };
+    let env1p = Env { base: &base, witness: true, space: "p1", batch: 128, crosscheck: 97, use_pref: false, probe_cpu, form: Form::Free, gaps: false, doc };
+    let env1 = Env { base: &base, witness: true, space: "p1", batch: 128, crosscheck: 97, use_pref: true, probe_cpu, form: Form::Free, gaps: false, doc };
     let r = run_par(ctx, pairs.len() as u64, 4, |idx, acc| {
         let (x, y) = pairs[idx as usize];
         let set = vec![vec![x], vec![y]];
@@ -1150,8 +1453,50 @@ pub fn run(ctx: &Ctx) -> i32 {
     });
     absorb(ctx, &mut rep, "p1_sets_of_4_and_5", r);
 
+    // ---- phase 3b: the declaration *form* and *layout* dimensions. The same one-parameter sets declared as methods
+    // of a struct (called as `s.f(x)` and unqualified from a sibling method) and as free functions, every permutation,
+    // with one differently named declaration at every position 0..=n of the declaration order (before, between any
+    // two, after the overloads). Added after a seeded change in the method lookup (the scan for overloads stopped at
+    // the first differently named member) was missed: all candidate sets used to be contiguous free functions.
+    let args_lv: Vec<Vec<A>> = (0..NTY as u8).chain([A_LIT_INT, A_LIT_FLOAT]).map(|a| vec![a]).collect();
+    let pairs_in: Vec<Vec<Sig>> = subsets(NTY, 2).iter().map(|s| s.iter().map(|i| vec![in_types[*i]]).collect()).collect();
+    let triples_in: Vec<Vec<Sig>> = subsets(NTY, 3).iter().map(|s| s.iter().map(|i| vec![in_types[*i]]).collect()).collect();
+    let scalar_sets = |ks: &[usize]| -> Vec<Vec<Sig>> {
+        let mut out = Vec::new();
+        for k in ks {
+            for s in subsets(6, *k) {
+                out.push(s.iter().map(|i| vec![scalars_in[*i]]).collect());
+            }
+        }
+        out
+    };
+    let cat = |a: &[Vec<Sig>], b: &[Vec<Sig>]| -> Vec<Vec<Sig>> { a.iter().chain(b.iter()).cloned().collect() };
+    // (space name, form, candidate sets, argument kinds)
+    let form_spaces: Vec<(&str, Form, Vec<Vec<Sig>>, &Vec<Vec<A>>)> = vec![
+        ("p1_method_pairs", Form::Method, pairs_in.clone(), ctx.pick(&args_lv, &args1)),
+        ("p1_method_triples", Form::Method, ctx.pick(scalar_sets(&[3]), cat(&triples_in, &scalar_sets(&[4]))), &args_lv),
+        ("p1_method_internal", Form::MethodInternal, ctx.pick(scalar_sets(&[2, 3]), cat(&pairs_in, &triples_in)), &args_lv),
+        ("p1_free_interleaved", Form::Free, ctx.pick(scalar_sets(&[2, 3]), cat(&pairs_in, &scalar_sets(&[3, 4]))), &args_lv),
+    ];
+    for (name, form, sets, args) in &form_spaces {
+        let env = env1.with(*form, true, true);
+        let every = (sets.len() as u64 / 5).max(1);
+        let r = run_par(ctx, sets.len() as u64, 1, |idx, acc| {
+            let set = &sets[idx as usize];
+            let v = process_set(&env, set, args, acc);
+            if idx % every == 0 {
+                acc.sample(obj(vec![
+                    ("space", format!("{} (layout: one differently named declaration first, then the identity order)", name).into()),
+                    ("set", set_show(set).into()),
+                    ("verdicts", Json::Arr(v.iter().enumerate().step_by(5).map(|(a, v)| format!("{} {}", args_show(&args[a]), v_show(*v, set)).into()).collect())),
+                ]));
+            }
+        });
+        absorb(ctx, &mut rep, name, r);
+    }
+
     // ---- phase 4: two parameters
-    let env2 = Env { base: &base, witness: false, space: "p2", batch: 128, crosscheck: 1009, use_pref: true, probe_cpu };
+    let env2 = Env { base: &base, witness: false, space: "p2", batch: 128, crosscheck: 1009, use_pref: true, probe_cpu, form: Form::Free, gaps: false, doc };
     let dims2: &[u8] = if ctx.quick() { &[1, 2] } else { &[1, 2, 4] };
     let types2: Vec<P> = (0..6).flat_map(|s| dims2.iter().map(move |d| p_code(ty_of(s, *d), false))).collect();
     let mut arg_alpha2: Vec<A> = types2.iter().map(|p| p_ty(*p)).collect();
@@ -1210,7 +1555,7 @@ pub fn run(ctx: &Ctx) -> i32 {
         .map(|(_, p)| p)
         .collect();
     if ctx.quick() {
-        rep.caps_hit.push("quick tier: 2-parameter pairs use dims {1,2}, all scalar-only pairs and every 28th other pair; 2-parameter triples every 32nd; 3-parameter pairs over 4 scalar types, every 10th pair (thorough enumerates all)".into());
+        rep.caps_hit.push("quick tier: 2-parameter pairs use dims {1,2}, all scalar-only pairs and every 28th other pair; 2-parameter triples every 32nd; 2-parameter method pairs every 16th; method triples, method-internal and interleaved free sets over the 6 scalar types only; 3-parameter pairs over 4 scalar types, every 10th pair (thorough enumerates all)".into());
     }
     let r = run_par(ctx, pairs2.len() as u64, 1, |idx, acc| {
         let (i, j) = pairs2[idx as usize];
@@ -1252,6 +1597,17 @@ pub fn run(ctx: &Ctx) -> i32 {
     });
     absorb(ctx, &mut rep, "p2_scalar_triples", r);
 
+    // pairs of two-parameter methods over the scalar types, one differently named member at every position
+    let env2m = env2.with(Form::Method, true, false);
+    let npairs2s = (sigs2s.len() * (sigs2s.len() - 1) / 2) as u64;
+    let thin2m = ctx.pick(16u64, 1u64);
+    let r = run_par(ctx, npairs2s / thin2m, 1, |idx, acc| {
+        let (i, j) = pair_of(idx * thin2m, sigs2s.len());
+        let set = vec![sigs2s[i].clone(), sigs2s[j].clone()];
+        process_set(&env2m, &set, &tuples2s, acc);
+    });
+    absorb(ctx, &mut rep, "p2_method_scalar_pairs", r);
+
     // triples of two-parameter candidates that differ only in vector width (same scalar kind): the candidates tie on
     // numeric rank, so the vector-rank tie-break alone decides (added after a seeded change in that loop was missed)
     for (fam, scalar) in [("float", 4usize), ("int", 1usize)] {
@@ -1279,7 +1635,7 @@ pub fn run(ctx: &Ctx) -> i32 {
     }
 
     // ---- phase 5: three parameters, pairs over the scalar types
-    let env3 = Env { base: &base, witness: false, space: "p3", batch: 128, crosscheck: 1009, use_pref: true, probe_cpu };
+    let env3 = Env { base: &base, witness: false, space: "p3", batch: 128, crosscheck: 1009, use_pref: true, probe_cpu, form: Form::Free, gaps: false, doc };
     let sc3: Vec<P> = ctx.pick(vec![0usize, 1, 3, 4], vec![0usize, 1, 3, 4, 5]).iter().map(|s| p_code(ty_of(*s, 1), false)).collect();
     let thin_p3 = ctx.pick(10u64, 1u64);
     let alpha3: Vec<A> = sc3.iter().map(|p| p_ty(*p)).chain([A_LIT_INT, A_LIT_FLOAT]).collect();
@@ -1305,14 +1661,19 @@ pub fn run(ctx: &Ctx) -> i32 {
     rep.cov("p2_types", Json::Int(types2.len() as i64));
     rep.cov("p2_signatures", Json::Int(sigs2.len() as i64));
     rep.cov("p2_argument_tuples", Json::Int(tuples2.len() as i64));
+    rep.cov("declaration_forms", Json::Arr(vec!["free".into(), "method".into(), "method-internal".into(), "free-interleaved".into()]));
+    rep.cov("layouts_per_set_with_gap", Json::Str("n! permutations × (n+1) positions of one differently named declaration: 6 for pairs, 24 for triples, 120 for sets of 4".into()));
     rep.cov("p3_signatures", Json::Int(sigs3.len() as i64));
     rep.cov("p3_argument_tuples", Json::Int(tuples3.len() as i64));
     rep.assumptions = vec![
-        "'viable' and 'converts better/worse/equally' are not taken from a rank table but from the compiler's own verdicts on single one-parameter candidates and on pairs of one-parameter candidates (48 parameter types × 50 argument kinds, identity order; both orders of every pair are compared by oracle 1); a ranking that is consistently different from the documented one is therefore not detected".into(),
+        "'viable' is the compiler's own verdict on single one-parameter candidates (48 parameter types × 50 argument kinds); 'converts better/worse/equally' in oracle 3 is the compiler's own verdict on pairs of one-parameter candidates (both orders of every pair are compared by oracle 1)".into(),
+        "reading of 'converts an argument better': the 'Overload priority' table documented at the top of typer/src/casting.rs (bool: bool > rest; int: int > uint > bool > half/float/double; int literal: uint/int > bool > half/float/double; uint: uint > int > bool > half/float/double; half: half > float > double > bool/int/uint; float: float > double > rest; double: double > rest), ties broken by the documented VectorRank (same dimension > scalar expanded > vector truncated). Every one-parameter set of `in` candidates (pairs and triples over all 24 types, sets of 4-5 over the scalars) × every typed argument and the untyped int literal is compared with this reference; only an ACCEPTED call that selects a candidate other than the reference's single best viable candidate (the selected one is then dominated) is a violation - a call the compiler rejects as ambiguous or resolves where the reference has a tie is a ranking choice the property leaves free and is only counted (documented_priority_deviation|*). Not covered by the reference: the untyped float literal (no documented row), `out` parameters; for 2-3 parameters only non-domination (oracle 3) is demanded, how the compiler combines the per-argument ranks beyond that is not".into(),
+        "declaration forms and layouts: one-parameter sets are also declared as struct methods (called as s.f(x), and unqualified from a sibling method, which then is the differently named member itself: the caller is declared before, between and after the overloads it calls) and as free functions, every permutation × one differently named declaration `void g() {}` at every position 0..=n of the order; arguments there are the 24 l-values and the two literals (r-values only in the thorough method pairs); oracles 1-3 apply across all layouts of a form; verdicts of different forms are not compared with each other".into(),
         "accepted call sites share a compilation unit (one test function per site, one privately named overload set per declaration order); the assumption that unrelated declarations do not influence a verdict is cross-checked by recompiling every 97th (1 parameter) / 1009th (2-3 parameters) batched site alone; rejected sites are always compiled alone".into(),
         "oracle 2 applies when exactly one candidate has parameter types equal to the argument types with a fitting value category; a set containing both f(T) and f(out T) called with an l-value of type T has two such candidates (rssl rejects the call as ambiguous) and is counted in exact_match_excluded_in_out_twins instead".into(),
         "oracle 3 is the property's wording only: a selected candidate must not be dominated; rejecting a call although one candidate dominates all others, and reporting 'no match' (instead of 'ambiguous') when several viable candidates each win one argument, are counted as info_* and not treated as violations".into(),
-        "outside the space: inout parameters, matrices, arrays, qualified (const/volatile) arguments, default arguments, templates, methods, namespaces/using; candidates are free functions with bodies; r-values are results of declared-only helper functions; untyped literals are `0` and `0.0`".into(),
+        "outside the space: inout parameters, matrices, arrays, qualified (const/volatile) arguments, default arguments, templates, static methods, inherited/templated structs, namespaces/using, more than one differently named declaration inside an overload group, data members between methods; candidates have bodies; r-values are results of declared-only helper functions; untyped literals are `0` and `0.0`".into(),
+        "method spaces: quick = method pairs over all 24 types, method triples / method-internal pairs+triples / interleaved free pairs+triples over the 6 scalar types, every 16th pair of two-parameter scalar methods; thorough = method and method-internal pairs and triples over all 24 types, method sets of 4 over the scalars, all 630 pairs of two-parameter scalar methods".into(),
         "2 parameters: `in` parameters over scalars × dims {1,2,4} (thorough; quick {1,2}) plus the {int,float}×{in,out} family with l-value/r-value/literal arguments; 3 parameters: pairs over 5 scalar types bool,int,half,float,double (quick: 4, without double); sets of 4-5 candidates: one scalar parameter, every subset of the 6 scalar types, every permutation".into(),
     ];
     finish(ctx, rep)
@@ -1396,8 +1757,20 @@ pub fn replay(ctx: &Ctx, body: &str) -> i32 {
         "kind: case" => {
             let mut set: Vec<Sig> = Vec::new();
             let mut args: Vec<A> = Vec::new();
+            let mut form = Form::Free;
+            let mut gaps = false;
             for line in rest.lines() {
-                if let Some(c) = line.strip_prefix("cands:") {
+                if let Some(f) = line.strip_prefix("form:") {
+                    form = match Form::parse(f.trim()) {
+                        Some(f) => f,
+                        None => {
+                            eprintln!("machinery error: unknown form {:?}", f);
+                            return 2;
+                        }
+                    };
+                } else if let Some(g) = line.strip_prefix("gaps:") {
+                    gaps = g.trim() == "1";
+                } else if let Some(c) = line.strip_prefix("cands:") {
                     for cand in c.split('|') {
                         let ps: Option<Sig> = cand.split(',').map(parse_param).collect();
                         match ps {
@@ -1425,17 +1798,16 @@ pub fn replay(ctx: &Ctx, body: &str) -> i32 {
             }
             let base = Base::new(true);
             let probe_cpu = false;
-            let env = Env { base: &base, witness: args.len() == 1, space: "replay", batch: 1, crosscheck: 0, use_pref: true, probe_cpu };
+            let env = Env { base: &base, witness: args.len() == 1, space: "replay", batch: 1, crosscheck: 0, use_pref: true, probe_cpu, form, gaps, doc: form == Form::Free && !gaps };
             let tuples = vec![args.clone()];
             process_set(&env, &set, &tuples, &mut acc);
             // show what the compiler does with this case, one line per declaration order
-            for perm in perms_of(set.len()) {
-                let order: Vec<String> = perm.iter().map(|c| sig_show(&set[*c as usize])).collect();
-                let v = match observe_alone(&set, &perm, &args, None) {
+            for layout in layouts_of(set.len(), gaps) {
+                let v = match observe_alone(form, &set, &layout, &args, None) {
                     Ok(v) => v_show(v, &set),
                     Err(t) => format!("fails: {}", t),
                 };
-                println!("  declared [{}], args ({}): the call {}", order.join("; "), args_show(&args), v);
+                println!("  {} declared [{}], args ({}): the call {}", form.tag(), layout_show(&set, &layout), args_show(&args), v);
             }
             // the axioms restricted to the parameter types of this case
             if args.len() == 1 && set.len() == 3 {
